@@ -473,7 +473,7 @@ class _Elemwise:
                 shape=self.shape,
                 has_duplicates=False,
                 fill_value=self.fill_value,
-            )
+            ).asformat(self.out_type, **self.out_kwargs)
 
         data_list = []
         coords_list = []
